@@ -390,9 +390,9 @@ func checkC11() *CheckDef {
 	type bnd struct{ la, lb, lc, nd int }
 	bounds := func(tier string) bnd {
 		if tier == "thorough" {
-			return bnd{la: 7, lb: 6, lc: 5, nd: 3}
+			return bnd{la: 7, lb: 6, lc: 5, nd: 4}
 		}
-		return bnd{la: 6, lb: 5, lc: 4, nd: 2}
+		return bnd{la: 6, lb: 5, lc: 4, nd: 4}
 	}
 	return &CheckDef{
 		ID:   "C11",
